@@ -9,7 +9,9 @@ loaded last) must be REFUTED by TLC.
 Behaviours of the specification (every path "one operation, Save, Load(eager|lazy)", TLC-simulated histories of 30
 operations, TLC-simulated histories of the shape "operations, Save, Load(lazy), two operations, Save, Load") and
 generator-made histories (all aspects with wide value domains, XML-special / blank-padded / non-ASCII texts, several
-save generations with partly raw sheets) are executed by harness/src/bin/meta.rs, which logs the projection of the whole
+save generations with partly raw sheets) and histories that start from the real-world files of tests/test_files (the
+independent reader's view of the original file is the initial model state; open eagerly / lazily, edit, save, load) are
+executed by harness/src/bin/meta.rs, which logs the projection of the whole
 workbook after every step; every written file is projected by pydec/meta_view.py (own OPC walk, ECMA-376 defaults for
 absent attributes); spec/Trace_Meta.tla judges.
 """
@@ -330,11 +332,11 @@ def gen_cases(chk):
         r4 = vlib.run_tlc("MC_Meta", "MC_Meta_replay_d4.cfg", workers=4, coverage=False, timeout=3000, heap="8g")
         if not r4.ok or not r4.replays:
             raise vlib.ToolError("replay generation (two operations) failed: " + (r4.violation or r4.out[-500:]))
-        reps = r4.replays if len(r4.replays) <= 20000 else rng.sample(r4.replays, 20000)
+        reps = r4.replays if len(r4.replays) <= 12000 else rng.sample(r4.replays, 12000)
         cases += [{"steps": rp} for rp in reps]
     n1b = len(cases)
     seen = set()
-    for cfg, num, depth in (("MC_Meta_sim.cfg", 150 if quick else 2500, 32), ("MC_Meta_sim_sls.cfg", 400 if quick else 6000, 11)):
+    for cfg, num, depth in (("MC_Meta_sim.cfg", 150 if quick else 2000, 32), ("MC_Meta_sim_sls.cfg", 400 if quick else 4000, 11)):
         rs = vlib.run_tlc("MC_Meta", cfg, workers=1, coverage=False, simulate=f"num={num}",
                           extra=["-depth", str(depth), "-seed", str(chk.seed)], timeout=3000)
         if rs.rc != 0 or rs.violation or not rs.replays:
@@ -345,7 +347,7 @@ def gen_cases(chk):
                 seen.add(key)
                 cases.append({"steps": rp})
     n2 = len(cases)
-    for k in range(500 if quick else 8000):
+    for k in range(500 if quick else 5000):
         cases.append(rand_case(rng, rng.choice([2, 5, 10, 20])))
     n3 = len(cases)
     cc, skipped = corpus_cases(rng, quick)
@@ -430,7 +432,8 @@ def run(chk):
                 "Load(eager | lazy), Materialise; the whole workbook is projected after every step and every written file is "
                 "projected independently; cases = TLC paths (one operation, Save, Load; thorough: + two operations), "
                 "TLC-simulated histories (30 free operations; operations, Save, Load(lazy), two operations, Save, Load), "
-                "generated histories with wide value domains and up to three save generations; distinct = different step "
+                "generated histories with wide value domains and up to three save generations, histories starting from the files of "
+                "tests/test_files (initial state = the independent view of the original file); distinct = different step "
                 "lists, non-trivial = at least two steps after Init")
     chk.sample({"script": cases[0]["steps"], "last_event": {k: v for k, v in events[0][-1].items() if k != "chars"}})
     chk.sample({"script": cases[-1]["steps"]})
@@ -443,6 +446,9 @@ def run(chk):
         "conditional-format rules, numbers whose shortest decimal text is used on both sides (margins), no CR in texts",
         "the password hash of SetProtPw is random-salted: the model takes the hash fields the library produced as an opaque token "
         "and demands that they survive unchanged (hash correctness is C15)",
+        "real-world files: only the aspects modelled are compared (theme colours, filter columns, x14 extensions, sheet-view and "
+        "page-setup attributes the library has no accessor for are outside the projection); sheets of a package with charts "
+        "are materialised all or none (C11-KF3)",
         "python3 zipfile / expat (pydec/xlsx.py, pydec/meta_view.py) are correct; the spelling table of a text is checked by TLC "
         "(concatenation of the characters equals the text) before it is used to compute a trimmed form"]
 
